@@ -209,7 +209,11 @@ where
     type Stream = Self;
 
     fn into_parts(self) -> (Vector<VectorDiffContainerStreamElement<S>>, Self::Stream) {
-        (self.buffered_vector.clone(), self)
+        // The values handed to the next observer are the current view, not the
+        // internal copy of the source.
+        let mut values = self.buffered_vector.clone();
+        values.truncate(self.limit);
+        (values, self)
     }
 }
 
